@@ -4,6 +4,8 @@ from __future__ import annotations
 
 import uuid
 
+import z3
+
 from pyvc.contracts import Contract
 from pyvc.values import Opaque, PDict, PList
 
@@ -96,3 +98,117 @@ class Entity2Uuid(Contract):
 
 
 CONTRACTS = [Uuid2Entity, Entity2Uuid]
+
+
+class Demote(Contract):
+    """InputFile.demote on a nested dictionary: every entity (top level, inside a list, inside a nested
+    form) is replaced by the braced text of its identifier, a container group by its name, every other
+    value is kept; the result is a new dictionary and the caller's dictionary -- InputFile.data while a
+    file is written -- still holds the entities."""
+    target = "geoh5py/ui_json/input_file.py::InputFile.demote"
+    props = ("C14",)
+    lenient = True
+
+    def setup(self, ctx):
+        from geoh5py.groups import ContainerGroup
+        from geoh5py.objects import Points
+        from geoh5py.ui_json import InputFile
+
+        a, b = Opaque("entity-a", cls=Points), Opaque("entity-b", cls=Points)
+        a.attrs["uid"], b.attrs["uid"] = uuid.UUID(int=21), uuid.UUID(int=22)
+        grp = Opaque("out-group", cls=ContainerGroup)
+        grp.attrs["uid"] = uuid.UUID(int=23)
+        grp.attrs["name"] = "results"
+        inner = PDict({"value": b, "label": "Object", "enabled": True})
+        lst = PList([a, 3, b])
+        var = PDict({"objects": a, "several": lst, "form": inner, "count": 5, "title": "run", "nothing": None, "ident": uuid.UUID(int=24)})
+        ctx.env.update(a=a, b=b, var=var, inner=inner, lst=lst, before=dict(var.items), inner_before=dict(inner.items), lst_before=list(lst.items))
+        return [InputFile, var], {}
+
+    @staticmethod
+    def _plain(v):
+        if isinstance(v, PDict):
+            return {k: Demote._plain(x) for k, x in v.items.items()}
+        if isinstance(v, PList):
+            return [Demote._plain(x) for x in v.items]
+        if isinstance(v, (list, tuple)):
+            return [Demote._plain(x) for x in v]
+        if isinstance(v, dict):
+            return {k: Demote._plain(x) for k, x in v.items()}
+        return v
+
+    def post(self, ctx, result):
+        e = ctx.env
+        br = lambda n: "{" + str(uuid.UUID(int=n)) + "}"  # noqa: E731
+        want = {"objects": br(21), "several": [br(21), 3, br(22)], "form": {"value": br(22), "label": "Object", "enabled": True}, "count": 5, "title": "run", "nothing": None, "ident": br(24)}
+        got = self._plain(result)
+        ctx.oblige("every-entity-is-replaced-by-its-identifier-text-everything-else-kept", got == want, note=f"demoted to {got}")
+        ctx.oblige("the-result-is-a-new-dictionary", result is not e["var"])
+        same = dict(e["var"].items) == e["before"] and all(e["var"].items[k] is e["before"][k] for k in e["before"]) and dict(e["inner"].items) == e["inner_before"] and list(e["lst"].items) == e["lst_before"]
+        ctx.oblige("the-callers-dictionary-still-holds-the-entities", same, kind="frame", note=f"the caller's dictionary now reads {self._plain(e['var'])}")
+
+    def post_raises(self, ctx, sig):
+        ctx.oblige("demotion-does-not-raise", False, kind="post-exc", note=f"{sig.exc_class.__name__} at {sig.origin}")
+
+
+CONTRACTS = CONTRACTS + [Demote]
+
+
+class Promote(Contract):
+    """InputFile.promote with a workspace attached: every identifier (top level, inside a list, inside a
+    nested form) is replaced by the entity the workspace finds under it, every other value is kept, and
+    demoting the result (the contract above) gives back exactly the identifiers that were promoted."""
+    target = "geoh5py/ui_json/input_file.py::InputFile.promote"
+    props = ("C14",)
+    lenient = True
+
+    def cases(self):
+        return ["workspace-attached", "no-workspace"]
+
+    def setup(self, ctx):
+        from geoh5py.objects import Points
+        from geoh5py.ui_json import InputFile
+
+        ua, ub = uuid.UUID(int=21), uuid.UUID(int=22)
+        a, b = Opaque("entity-a", cls=Points), Opaque("entity-b", cls=Points)
+        a.attrs["uid"], b.attrs["uid"] = ua, ub
+        ws = Opaque("workspace")
+        ws.attrs["list_entities_name"] = PDict({ua: "a", ub: "b"})
+        ge = Opaque("get_entity")
+        ge.maybe_method = lambda I, args, kw: PList([{ua: a, ub: b}.get(args[0])])
+        ws.attrs["get_entity"] = ge
+        ws.attrs["objects"] = PList([])
+        ctx.path.assume(z3.Not(ws.none_var()))
+        me = Opaque("self", cls=InputFile)
+        me.attrs["_geoh5"] = ws if ctx.case == "workspace-attached" else None
+        me.attrs["validate"] = False
+        var = PDict({"objects": ua, "several": PList([ua, 3, ub]), "form": PDict({"value": ub, "label": "Object"}), "count": 5, "title": "run", "nothing": None})
+        ctx.env.update(a=a, b=b, ua=ua, ub=ub, var=var)
+        return [me, var], {}
+
+    def post(self, ctx, result):
+        e = ctx.env
+        got = Demote._plain(result)
+        if ctx.case == "no-workspace":
+            ctx.oblige("without-a-workspace-nothing-is-promoted", got == {"objects": e["ua"], "several": [e["ua"], 3, e["ub"]], "form": {"value": e["ub"], "label": "Object"}, "count": 5, "title": "run", "nothing": None})
+            return
+        a, b = e["a"], e["b"]
+        ok = (isinstance(got, dict) and got.get("objects") is a and isinstance(got.get("several"), list) and len(got["several"]) == 3 and got["several"][0] is a and got["several"][1] == 3
+              and got["several"][2] is b and isinstance(got.get("form"), dict) and got["form"].get("value") is b and got["form"].get("label") == "Object"
+              and got.get("count") == 5 and got.get("title") == "run" and got.get("nothing") is None and set(got) == {"objects", "several", "form", "count", "title", "nothing"})
+        ctx.oblige("every-identifier-is-replaced-by-the-entity-found-under-it-everything-else-kept", ok, note=f"promoted to {got}")
+
+        def back(v):
+            if isinstance(v, dict):
+                return {k: back(x) for k, x in v.items()}
+            if isinstance(v, list):
+                return [back(x) for x in v]
+            return getattr(v, "attrs", {}).get("uid", v) if isinstance(v, Opaque) else v
+
+        ctx.oblige("demoting-the-promoted-dictionary-returns-the-identifiers", back(got) == {"objects": e["ua"], "several": [e["ua"], 3, e["ub"]], "form": {"value": e["ub"], "label": "Object"}, "count": 5, "title": "run", "nothing": None}, kind="lemma")
+
+    def post_raises(self, ctx, sig):
+        ctx.oblige("promotion-does-not-raise", False, kind="post-exc", note=f"{sig.exc_class.__name__} at {sig.origin}")
+
+
+CONTRACTS = CONTRACTS + [Promote]
